@@ -12,7 +12,7 @@ BASE = ["C03_Robin", "C03_Periodic", "C03_InteriorKept", "C03_RowsSatisfied", "C
 def run(tier, seed):
     return opscheck.run_property(
         "C03", tier, seed, design=opscheck.design_ops("C03", None), clauses_for=lambda cfg: BASE,
-        extra_configs=opsdrive.periodic_systematic_configs(False), n_quick=16, n_thorough=160,
+        extra_configs=opsdrive.periodic_systematic_configs(False) + opsdrive.large_configs(), n_quick=16, n_thorough=160,
         gen_kw=[{}, {"nmax": 2}, {"kinds": ["robin"]}, {"kinds": ["dirichlet", "neumann"]}],
         extra_conform=["ghost", "Mbc", "Rbc"],
         rule="9 grid classes x per-side kinds {Dirichlet, Neumann, Robin with face-wise varying a,b,c, periodic on "
